@@ -159,6 +159,8 @@ var c09Share = core.Mon(c09, "concurrent-share", func(w *core.W, c *RaceCfg) {
 		// failures that name what was called: each goroutine gets the error of ITS call
 		"n0(1)", "s0()", "m(2)", "arr()", "fid(arr...)", "fcat('a', arr...)", "abs(arr...)", "b0 ? n1(1) : s1(1)", "fnoret()", "m.k(1)", "left('a')", "right('a', 1, 2)", "fctx()", "undefinedfn(1)", "undefinedname.f(1)"}
 	// long lists whose elements bind and read locals: an evaluation proceeds element by element, in its own runner
+	// trees the field analysis refuses (member access on something that is not a name or path): the refusal is formed concurrently too
+	hot = append(hot, "fid(m).k", "(m).k + 1", "fcurry(n0)(n1).x", "[fid(st).A,\n fid(st).S]", "('s' + s0).len")
 	hot = append(hot, "[$q = n0"+strings.Repeat(", $q", 254)+", $q = $q + 1, $q]", "["+strings.Repeat("$r = ($r ?? n0) + 1, ", 199)+"$r]", "fcat("+strings.Repeat("$t = s0, $t, ", 80)+"'e')")
 	srcs = append(hot, srcs...)
 	srcs = append(srcs, gen.Corpus...)
@@ -268,6 +270,11 @@ var c09Share = core.Mon(c09, "concurrent-share", func(w *core.W, c *RaceCfg) {
 				atomic.AddInt64(&evals, 1)
 				if !t.clock {
 					seen[g] = append(seen[g], obsv{i, got})
+				}
+				if it < 3*len(hot) && it%5 != 1 {
+					// cold start: every hot tree is also analysed by every goroutine at about the same moment
+					atomic.AddInt64(&analyses, 1)
+					seenFields[g] = append(seenFields[g], obsv{i, fieldsOf(t.sc)})
 				}
 				switch it % 5 {
 				case 1:
